@@ -42,7 +42,7 @@ fn main() {
         seed,
         workers,
         known: known.clone(),
-        stall_is_violation: matches!(property.as_str(), "C11" | "C12" | "C13" | "C17" | "C18"),
+        stall_is_violation: matches!(property.as_str(), "C11" | "C12" | "C13" | "C15" | "C17" | "C18"),
     };
     let started = Instant::now();
     let outcome = engines::run_check(&context);
